@@ -234,6 +234,7 @@ type tCfg struct {
 	n       int
 	a, b    int
 	step    int // RangeWithStepAndInterval (integral bounds and step)
+	item    int // RepeatWithInterval
 	gaps    []int
 	term    string
 	slowK   int
@@ -245,7 +246,7 @@ type tCfg struct {
 func parseTCfg(c *Case) tCfg {
 	atoi := func(s string) int { v, _ := strconv.Atoi(s); return v }
 	cfg := tCfg{op: c.get("op", "?"), d: atoi(c.get("d", "0")), d2: atoi(c.get("d2", "0")), n: atoi(c.get("n", "0")),
-		a: atoi(c.get("a", "0")), b: atoi(c.get("b", "0")), step: atoi(c.get("step", "1")), gaps: parseInts(c.get("gaps", "-")), term: c.get("term", "-"),
+		a: atoi(c.get("a", "0")), b: atoi(c.get("b", "0")), step: atoi(c.get("step", "1")), item: atoi(c.get("item", "0")), gaps: parseInts(c.get("gaps", "-")), term: c.get("term", "-"),
 		slowK: -1, cutKind: "-"}
 	if s := c.get("slow", "-"); s != "-" {
 		p := strings.SplitN(s, ":", 2)
@@ -266,7 +267,7 @@ var timedSourceOps = map[string]bool{"Delay": true, "DelayEach": true, "Timeout"
 	"SampleTime": true, "BufferWithTime": true, "BufferWithTimeOrCount": true}
 
 // operators that watch the subscription context (operator_creation.go:67,98,146 and everything fed by Interval)
-var timedWatchesCtx = map[string]bool{"Timer": true, "Interval": true, "IntervalWithInitial": true, "RangeWithInterval": true, "RangeWithStepAndInterval": true,
+var timedWatchesCtx = map[string]bool{"Timer": true, "Interval": true, "IntervalWithInitial": true, "RangeWithInterval": true, "RangeWithStepAndInterval": true, "RepeatWithInterval": true,
 	"SampleTime": true, "BufferWithTime": true, "BufferWithTimeOrCount": true}
 
 const timedGuard = 3 * time.Second
@@ -334,6 +335,10 @@ func runTimed(c *Case) string {
 	case "RangeWithInterval":
 		subscribe = func() ro.Subscription {
 			return ro.RangeWithInterval(int64(cfg.a), int64(cfg.b), d).SubscribeWithContext(ctx, timedObserver(rec, renderInt64N))
+		}
+	case "RepeatWithInterval":
+		subscribe = func() ro.Subscription {
+			return ro.RepeatWithInterval(cfg.item, int64(cfg.b), d).SubscribeWithContext(ctx, timedObserver(rec, renderIntN))
 		}
 	case "RangeWithStepAndInterval":
 		// integral bounds and step: every value is an integer and float arithmetic on them is exact
@@ -414,7 +419,7 @@ func runTimed(c *Case) string {
 		mustEnd = true
 	case cfg.op == "Timer" && cfg.cutKind == "-":
 		mustEnd = true
-	case (cfg.op == "RangeWithInterval" || cfg.op == "RangeWithStepAndInterval") && cfg.cutKind == "-":
+	case (cfg.op == "RangeWithInterval" || cfg.op == "RangeWithStepAndInterval" || cfg.op == "RepeatWithInterval") && cfg.cutKind == "-":
 		mustEnd = true
 	}
 	if mustEnd {
@@ -666,6 +671,10 @@ func genTimed(tier string, seed int64, only string) []*Case {
 		add("RangeWithInterval", "d", ds, "a", "5", "b", "2", "cut", "-")
 		add("RangeWithInterval", "d", ds, "a", "4", "b", "4", "cut", "-")
 		add("RangeWithInterval", "d", ds, "a", "0", "b", "9", "cut", "out:"+itoa(3*d+d/2))
+		add("RepeatWithInterval", "d", ds, "a", "0", "b", "3", "item", "7", "cut", "-")
+		add("RepeatWithInterval", "d", ds, "a", "0", "b", "1", "item", "0", "cut", "-")
+		add("RepeatWithInterval", "d", ds, "a", "0", "b", "0", "item", "7", "cut", "-")
+		add("RepeatWithInterval", "d", ds, "a", "0", "b", "6", "item", "-2", "cut", "out:"+itoa(2*d+d/2))
 		// spans that are / are not a multiple of the step, a step larger than the span, descending, empty
 		add("RangeWithStepAndInterval", "d", ds, "a", "0", "b", "6", "step", "2", "cut", "-")
 		add("RangeWithStepAndInterval", "d", ds, "a", "0", "b", "5", "step", "2", "cut", "-")
